@@ -16,6 +16,7 @@ type T0 struct{ K int }
 type T1 struct{ K int }
 type T2 struct{ K int }
 type T3 struct{ K int }
+
 // t4 and t5 have lower-case type names on purpose: their reflect String()
 // ("engine.t4") can then occur inside (lower-cased) value names, which is what
 // label-collision scenarios need.
@@ -65,7 +66,8 @@ const (
 // Types is the universe, indexed by type number.
 var Types = []reflect.Type{
 	reflect.TypeOf(T0{}), reflect.TypeOf(T1{}), reflect.TypeOf(T2{}),
-	reflect.TypeOf(T3{}), reflect.TypeOf(t4{}), reflect.TypeOf(t5{}),
+	reflect.TypeOf(&T3{}), // a pointer type: values of universe type 3 are *T3
+	reflect.TypeOf(t4{}), reflect.TypeOf(t5{}),
 	reflect.TypeOf((*I0)(nil)).Elem(), reflect.TypeOf((*I1)(nil)).Elem(),
 	reflect.TypeOf((*I2)(nil)).Elem(),
 }
@@ -110,6 +112,11 @@ func Implementers(iface int) []int {
 
 // MakeValue builds a value of concrete type typ carrying tok.
 func MakeValue(typ, tok int) reflect.Value {
+	if Types[typ].Kind() == reflect.Ptr {
+		p := reflect.New(Types[typ].Elem())
+		p.Elem().Field(0).SetInt(int64(tok))
+		return p
+	}
 	v := reflect.New(Types[typ]).Elem()
 	v.Field(0).SetInt(int64(tok))
 	return v
@@ -140,6 +147,10 @@ func Observe(v reflect.Value) Obs {
 		v = v.Elem()
 	}
 	i := TypeIdx(v.Type())
+	if i < 0 {
+		// a pointer-typed universe member was dereferenced above
+		i = TypeIdx(reflect.PtrTo(v.Type()))
+	}
 	if i < 0 || i >= NumConcrete {
 		return Obs{Dyn: -1}
 	}
